@@ -8,6 +8,7 @@ the mask of the current node (both hold on every state reached from `reset`, see
 import JumanjiModel.Env.GraphColoring.Lemmas
 import JumanjiModel.Env.GraphColoring.Bounds
 import JumanjiModel.Env.GraphColoring.EpisodeLemmas
+import JumanjiModel.Env.GraphColoring.GenLemmas
 open Jm GraphColoring
 
 namespace Props.C04
@@ -82,6 +83,27 @@ theorem graph_coloring_complete_is_solution (n : Nat) (s : State) (a : Int) (hw 
 example : GraphOK 3 [[false, true, true], [true, false, true], [true, true, false]] := by decide
 example : Feasible 3 ⟨[[false, true, true], [true, false, true], [true, true, false]], [0, 1, -1], 2,
     [false, false, true]⟩ := by decide
+/-- whole episodes from ANY well-formed state with a symmetric loop-free graph and a proper partial colouring,
+along ANY sequence of colours each legal at its turn: the colouring is proper after every prefix (also past the end
+of the episode, where the current node wraps around and nodes are re-coloured) -/
+theorem graph_coloring_feasible_along_from (n : Nat) (s : State) (as : List Nat) (hi : Inv n s)
+    (hg : GraphOK n s.adj) (hf : Feasible n s) (hal : AllLegal n s as) (k : Nat) :
+    Feasible n (runState n s (as.take k)) := GraphColoring.feasible_along n s as hi hg hf hal k
+
+/-- whole episodes from ANY generated instance (any `n > 0`, any thresholded draw `B` of the generator) along ANY
+mask-respecting sequence (`AllMasked`: each colour has its bit set in the action mask of the observation current at
+its turn): after every prefix no edge joins two nodes of the same colour -/
+theorem graph_coloring_feasible_along (n : Nat) (hn : 0 < n) (B : List (List Bool)) (as : List Nat)
+    (hm : AllMasked n (reset n (generate n B)).1 as) (k : Nat) :
+    Feasible n (runState n (reset n (generate n B)).1 (as.take k)) := by
+  have hg := GraphColoring.generate_ok n B
+  have hi := GraphColoring.reset_Inv n (generate n B) hn hg.1 hg.2.1
+  exact GraphColoring.feasible_along n _ as hi hg (GraphColoring.reset_feasible n _)
+    (GraphColoring.allMasked_allLegal n as _ hi hm) k
+
+-- a mask-respecting complete episode on the generated triangle
+example : AllMasked 3 (reset 3 (generate 3 [[true, true, true], [true, true, true], [true, true, true]])).1 [0, 1, 2] := by
+  simp only [AllMasked]; decide +kernel
 end Props.C06
 
 namespace Props.C08
@@ -158,6 +180,36 @@ namespace Props.C10
 without self-loops -/
 theorem graph_coloring_generate_ok (n : Nat) (B : List (List Bool)) : GraphOK n (generate n B) :=
   GraphColoring.generate_ok n B
+/-- the same with the uniform draw itself as parameter (`generateU n p U` = threshold `U < edge_probability`, then
+`tril(·,-1)` plus transpose): for EVERY `n`, EVERY threshold and EVERY draw `U` (in particular every valid one) the
+adjacency matrix is `n × n`, symmetric and loop-free.  Symmetry does not depend on the draw at all: the upper
+triangle is a copy of the lower one. -/
+theorem graph_coloring_generate_cert (n : Nat) (p : Rat) (U : List (List Rat)) (_h : validUniform n U) :
+    GraphOK n (generateU n p U) := GraphColoring.generateU_ok n p U
+
+/-- what the generator guarantees about the NUMBER of edges (`edge_probability` is documented as "the percentage of
+connections in the graph compared to a fully connected graph"): the edge count equals the number of entries of the
+strict lower triangle of the draw that fall below the threshold — a Binomial(n(n−1)/2, p) count, not a configured
+number — and is at most `n(n−1)/2` -/
+theorem graph_coloring_num_edges (n : Nat) (p : Rat) (U : List (List Rat)) :
+    numEdges (generateU n p U) n = lowerTrue (threshold p U) n ∧
+    numEdges (generateU n p U) n * 2 + n ≤ n * n :=
+  ⟨GraphColoring.numEdges_generate n _ n (Nat.le_refl n), GraphColoring.numEdges_le _ n⟩
+
+/-- the edge count is not fixed by `edge_probability`: for every `n` and every `0 < p < 1` both the complete graph
+(draw constant 0) and the empty graph (draw constant `p`) are outputs for valid draws -/
+theorem graph_coloring_num_edges_not_configured (n : Nat) (p : Rat) (hp0 : 0 < p) (hp1 : p < 1) :
+    validUniform n (List.replicate n (List.replicate n 0)) ∧
+    validUniform n (List.replicate n (List.replicate n p)) ∧
+    (∀ i j, i < n → j < n → edge (generateU n p (List.replicate n (List.replicate n 0))) i j = decide (i ≠ j)) ∧
+    (∀ i j, i < n → j < n → edge (generateU n p (List.replicate n (List.replicate n p))) i j = false) :=
+  ⟨GraphColoring.validUniform_const n 0 (by decide) (by decide),
+   GraphColoring.validUniform_const n p (Rat.le_of_lt hp0) hp1,
+   fun i j hi hj => GraphColoring.generateU_complete n p hp0 i j hi hj,
+   fun i j hi hj => GraphColoring.generateU_empty n p i j hi hj⟩
+
+example : validUniform 2 [[1/2, 0], [1/10, 9/10]] ∧ numEdges (generateU 2 (1/2) [[1/2, 0], [1/10, 9/10]]) 2 = 1 := by
+  decide +kernel
 end Props.C10
 
 namespace Props.C11
